@@ -6,8 +6,8 @@ int main(int argc, char** argv)
   FEAT::Runtime::ScopeGuard guard(argc, argv);
   verif::Spec spec; c08::fill_spec(spec, "c08_precond_bcsr", "BCSR<2>/BCSR<3> matrix, block");
   spec.bounds_quick = "block sizes 2 and 3; n 1..3 block rows with all off-diagonal block patterns (1,4,64), block size 2 also n=4 (special patterns + every 31st of 4096); "
-    "diagonal blocks = unit-lower x upper with +-2^k diagonal (2 variants), off-diagonal blocks position coded; Jacobi/SOR/SSOR omega {1,1/2,3/2}, ILU p {0,1,2,n}; "
-    "filters None, Unit{0},{n-1},{1},{0,n-1}; life-cycle depth 12 (fixpoint of 72 states reached at 9)";
-  spec.bounds_thorough = "block size 2: n=4 with all 4096 patterns; block size 3: n=4 with special patterns + every 7th; life-cycle depth 14";
+    "diagonal blocks = unit-lower x upper with +-2^k diagonal (2 variants + all-negative), off-diagonal blocks position coded; Jacobi/SOR/SSOR omega {1,1/2,3/2}, ILU p {0,1,2,n}; "
+    "filters None, Unit{0},{n-1},{1},{0,n-1}; life-cycle depth 14 with set_omega (all patterns n<=3, every 8th pattern of n=4; fixpoint reached)";
+  spec.bounds_thorough = "block size 2: n=4 with all 4096 patterns; block size 3: n=4 with special patterns + every 7th; life-cycle depth 16 for all patterns";
   return verif::run(spec, argc, argv, [&](verif::Ctx& c) { c08::enumerate<2>(c, 4, 4, [](int n, bool th) -> unsigned { return (n >= 4 && !th) ? 31u : 1u; }); c08::enumerate<3>(c, 3, 4, [](int n, bool) -> unsigned { return n >= 4 ? 7u : 1u; }); });
 }
